@@ -380,16 +380,23 @@ func (prop) Run(t *testing.T, tape *kernel.Tape, sc kernel.Scenario) *kernel.Res
 			idx = tape.Choose(total, "order-index")
 		}
 		// the requirement structure of the route belongs to the description: serving requests must not change it
-		changed := false
-		for i := range route.Authenticators {
-			wantNames := keys(s.alts[i])
-			if len(wantNames) == 0 {
-				wantNames = []string{""}
+		// (as a multiset of scheme sets: in which order the route keeps its alternatives is its own business)
+		canonAlt := func(names []string) string {
+			n := append([]string(nil), names...)
+			if len(n) == 0 {
+				n = []string{""}
 			}
-			if !sameSet(route.Authenticators[i].Schemes, wantNames) {
-				changed = true
-			}
+			sort.Strings(n)
+			return strings.Join(n, "&")
 		}
+		var haveAlts, wantAlts []string
+		for i := range route.Authenticators {
+			haveAlts = append(haveAlts, canonAlt(route.Authenticators[i].Schemes))
+			wantAlts = append(wantAlts, canonAlt(keys(s.alts[i])))
+		}
+		sort.Strings(haveAlts)
+		sort.Strings(wantAlts)
+		changed := strings.Join(haveAlts, "|") != strings.Join(wantAlts, "|")
 		if changed {
 			var now []string
 			for i := range route.Authenticators {
